@@ -10,6 +10,8 @@
 //
 // Build: go1.26 test -c -tags verif -o build/bin/c13 ./cmd/c13
 // Run:   build/bin/c13 -test.run '^TestHarness$' -test.timeout 0 -test.count 1 -out DIR
+
+//go:debug randseednop=0
 package main
 
 import (
@@ -108,7 +110,6 @@ type env struct {
 	obs     []*callerObs
 	next    []int  // next event index per caller
 	follow  []*evSpec // pending follow-up of a redirect, per caller
-	posts   int    // global count of POST attempts (for the tie-breaking epsilons)
 	logs    []logLine
 }
 
@@ -206,12 +207,11 @@ func (e *env) RoundTrip(req *http.Request) (*http.Response, error) {
 	}
 	e.next[k]++
 	if len(e.sess.Callers) > 1 {
-		// distinct sub-millisecond offsets: no two responses of a session share an instant
-		// (at most 4 callers x (3 scripted + 1 synthesised) POSTs: the 18 bits below 2^18 ns suffice)
-		if e.posts < 18 {
-			cs.Evs[idx].Dur += time.Duration(1) << uint(e.posts)
+		// distinct sub-millisecond offsets (one bit per (caller, POST)): no two responses of a
+		// session share an instant, whatever the order in which goroutines run
+		if k < 4 && idx < 4 {
+			cs.Evs[idx].Dur += time.Duration(1) << uint(4*k+idx)
 		}
-		e.posts++
 	}
 	ev := cs.Evs[idx]
 	e.mu.Unlock()
@@ -712,8 +712,8 @@ func buildCase(e *env, id int) lib.Case {
 		}
 		observed = append(observed, fmt.Sprintf("mkObs %s %s %s %s", lib.List(atts), lib.List(logs), res, zt(o.end)))
 		tags = append(tags, "result:"+o.class, fmt.Sprintf("posts:%s", bucket(len(o.attempts))))
-		if cs.CtxEnd < 0 {
-			tags = append(tags, "ctx:none")
+		if cs.Profile == "far-deadline" {
+			tags = append(tags, "ctx:30-days")
 		} else if cs.Cancel {
 			tags = append(tags, "ctx:cancel")
 		} else {
@@ -1011,6 +1011,7 @@ func bound(s *session) {
 	for k := range s.Callers {
 		cs := &s.Callers[k]
 		if cs.CtxEnd < 0 {
+			cs.Profile = "far-deadline"
 			cs.CtxEnd = 30*24*time.Hour + 500*time.Microsecond + time.Duration(k)*time.Microsecond
 		}
 	}
